@@ -30,7 +30,7 @@ from engine import build, shim
 
 LEAF_CLASSES = ["Affine", "Loc", "Scale", "TriangularAffine", "Exp", "SoftPlus", "Tanh", "LeakyTanh", "Identity", "Flip",
                 "Permute", "RationalQuadraticSpline", "PlanarLeaky", "PlanarTanh", "AdditiveCondition", "Coupling",
-                "CouplingSpline", "MaskedAutoregressive", "MaskedAutoregressiveSpline", "BlockAutoregressiveNetwork",
+                "CouplingSpline", "MaskedAutoregressive", "MaskedAutoregressiveSpline", "BlockAutoregressiveNetwork", "BlockAutoregressiveNetworkDeep",
                 "VmapSpline", "Reshape", "EmbedCondition"]
 ONTO = ["Affine", "LeakyTanh", "VmapSpline", "Loc", "Flip"]          # leaves that are bijections of R^n onto R^n
 FORWARD = ["Affine", "LeakyTanh", "VmapSpline", "Tanh", "SoftPlus", "Exp", "Scale"]
@@ -99,6 +99,10 @@ def leaf(cls, shape, rs, regime, key):
     if cls == "BlockAutoregressiveNetwork":
         b = bj.BlockAutoregressiveNetwork(key, dim=shape[0], cond_dim=None, depth=1, block_dim=2)
         return perturb(b, rs, sc * 0.5)
+    if cls == "BlockAutoregressiveNetworkDeep":      # square hidden blocks (depth >= 2, block_dim >= 2), depth 0, a condition
+        depth, bd, cd = [(2, 3, None), (3, 2, 2), (0, 1, None), (2, 2, 2)][int(rs.integers(4))]
+        b = bj.BlockAutoregressiveNetwork(key, dim=shape[0], cond_dim=cd, depth=depth, block_dim=bd)
+        return perturb(b, rs, max(sc, 0.3) * 0.5)
     if cls == "Reshape":
         return bj.Reshape(leaf("Affine", (n,), rs, regime, key), shape)
     if cls == "EmbedCondition":
@@ -108,6 +112,7 @@ def leaf(cls, shape, rs, regime, key):
 
 DEFAULT_SHAPE = {"TriangularAffine": (3,), "PlanarLeaky": (3,), "PlanarTanh": (3,), "Coupling": (3,), "CouplingSpline": (3,),
                  "MaskedAutoregressive": (3,), "MaskedAutoregressiveSpline": (3,), "BlockAutoregressiveNetwork": (2,),
+                 "BlockAutoregressiveNetworkDeep": (2,),
                  "RationalQuadraticSpline": (), "Reshape": (2, 2), "VmapSpline": (3,)}
 
 
@@ -280,7 +285,7 @@ def make(spec):
         b = leaf(cls, shape, rs, spec["regime"], key)
         out["b"], out["name"] = b, f"{cls}/{spec['regime']}"
         out["points"] = boundary_points(cls, b, shape, rs) + generic_points(shape, rs, 3, 0.9)
-        out["bisect"] = cls == "BlockAutoregressiveNetwork"
+        out["bisect"] = cls.startswith("BlockAutoregressiveNetwork")
         out["noinv"] = cls == "PlanarTanh"
     elif spec["src"] == "prog":
         from harness import comb
@@ -325,7 +330,7 @@ def specs(tier: str, seed: int, tlc_cases: list | None = None):
     thorough = tier == "thorough"
     out = []
     for cls in LEAF_CLASSES:
-        regimes = ["init", "perturbed"] + (["negscale"] if cls in ("Affine", "Reshape") else [])
+        regimes = ["init", "perturbed"] + (["negscale"] if cls in ("Affine", "Reshape") else []) + (["wild"] if cls == "BlockAutoregressiveNetworkDeep" else [])
         for reg in regimes:
             for rep_ in range(2 if thorough else 1):
                 out.append({"src": "leaf", "cls": cls, "regime": reg, "seed": rng.randrange(2**30)})
